@@ -152,6 +152,9 @@ class Entry:
         self.values = None
         self.notations = []
         self.lo = self.hi = None
+        if text is None:
+            self.kind = 'bad'
+            return
         if text == '..':
             self.kind = 'unclaimed'
             return
@@ -445,7 +448,8 @@ def gen_valuemap(rng, tmin, tmax):
             ents.append(t)
     cls = style + ('/wild' if wild else '')
     if ents and rng.random() < 0.06:
-        ents[rng.randrange(len(ents))] = rng.choice(MALFORMED)
+        # (a NULL array entry is no entry of the grammar either)
+        ents[rng.randrange(len(ents))] = rng.choice(MALFORMED + [None, None])
         cls += '/malformed'
     if len(ents) > 1 and rng.random() < 0.08:
         ents[rng.randrange(len(ents))] = rng.choice(ents)      # duplicate
